@@ -98,4 +98,54 @@ def tweakRange (cfg : Cfg) (whitelist : List Nat) (base : Nat) (inBlocks : Optio
     let uniq := bounded.foldl (fun l n => insertSortedNat n l) []
     (if uniq.isEmpty then none else some uniq, wlRest)
 
+/-- the index provider as a table: `none` = BlocksInRange fails (no index for that range: the index has ended),
+    `some none` = a nil result, `some (some l)` = these block numbers -/
+abbrev Prov := Nat → Option (Option (List Nat))
+
+/-- lookupBlockIndex (after the stop-block test): walk bundle by bundle until a bundle has something to deliver -/
+def lookupIndex (cfg : Cfg) (prov : Prov) : Nat → Nat → List Nat → Nat × Option (List Nat) × Bool × List Nat
+  | 0, base, wl => (base, none, true, wl)
+  | fuel + 1, base, wl =>
+    match prov base with
+    | none => (base, none, true, wl)
+    | some r =>
+      let (out, wl') := tweakRange cfg wl base r
+      match out with
+      | none => lookupIndex cfg prov fuel (base + cfg.bundleSize) wl'
+      | some l => (base, some l, false, wl')
+
+/-- launchReader + run with a block index provider (continuity is not validated: the suite feeds parent-linked chains).
+    When the bundle file does not exist the launcher retries the whole iteration, lookup included — with the
+    whitelist as the first attempt left it —, so it may move on to a later bundle; the run "waits" for the base it
+    misses twice in a row (`lastMiss`). -/
+def runIndexed (cfg : Cfg) (bundles : List Bundle) (prov : Prov) (pf : Nat) :
+    Nat → Nat → Bool → List Nat → Id → List Blk → Option Nat → List Blk × FSEnd
+  | 0, base, _, _, _, acc, _ => (acc, .waiting base)
+  | fuel + 1, base, active, wl, lastID, acc, lastMiss =>
+    let (base', filtered, active', wl') : Nat × Option (List Nat) × Bool × List Nat :=
+      if active then
+        let (nb, matching, noMore, wl1) :=
+          if cfg.stop != 0 && base > cfg.stop then (base, none, true, wl) else lookupIndex cfg prov pf base wl
+        if noMore then
+          if !(findBundle bundles nb).isSome && nb > base then (nb - cfg.bundleSize, none, false, wl1)
+          else (nb, none, false, wl1)
+        else (nb, matching, true, wl1)
+      else (base, none, false, wl)
+    match findBundle bundles base' with
+    | none =>
+      if lastMiss == some base' then (acc, .waiting base')
+      else runIndexed cfg bundles prov pf fuel base' active' wl' lastID acc (some base')
+    | some bu =>
+      let (acc', lastID', _, e) := streamFile cfg false base' filtered bu.blocks lastID none acc
+      match e with
+      | some e => (acc', e)
+      | none =>
+        let next := base' + cfg.bundleSize
+        if cfg.stop != 0 && next > cfg.stop then (acc', .stopReached)
+        else runIndexed cfg bundles prov pf fuel next active' wl' lastID' acc' none
+
+def runWithIndex (cfg : Cfg) (bundles : List Bundle) (prov : Prov) (pf : Nat) : List Blk × FSEnd :=
+  if cfg.bundleSize == 0 then ([], .waiting 0) else
+  runIndexed cfg bundles prov pf (2 * (bundles.length + pf) + 6) (lowBoundary cfg.start cfg.bundleSize) true cfg.whitelist "" [] none
+
 end BstreamVerif.FileSourceSeq
